@@ -48,6 +48,7 @@ type job struct {
 	N     int    `json:"n"`             // part B: number of programs
 	Skip  int    `json:"skip"`          // part B: programs already done by an earlier child of this job
 	One   *bprog `json:"one,omitempty"` // part B: run exactly this program (replay of a record)
+	Dir   string `json:"dir,omitempty"` // part W: scratch directory
 }
 
 type jobResult struct {
@@ -73,6 +74,8 @@ func run(c *core.Ctx) {
 		syscall.Setrlimit(syscall.RLIMIT_AS, &syscall.Rlimit{Cur: lim, Max: lim})
 		if j.Part == "A" {
 			childA(c, j)
+		} else if j.Part == "W" {
+			childW(c, j)
 		} else {
 			childB(c, j)
 		}
@@ -106,6 +109,7 @@ func run(c *core.Ctx) {
 	okA := partA(c, base, pl)
 	if okA {
 		partB(c, base, pl)
+		partW(c, base)
 	}
 	pl.wait()
 	pl.report()
